@@ -6,7 +6,7 @@ import shutil
 import gen
 import mockca
 import vlib
-from ext import c06nb, idnagen
+from ext import c06link, c06nb, idnagen
 
 FINISH = dict(
     level="proof",
@@ -134,7 +134,9 @@ def gen_triple(rng, idx, root):
     nb_class, nb = c06nb.pick(rng)
     return {"dir": d, "name": "crt", "key_type": "ecdsa-p256", "ids": ids, "delay_s": delay, "rer_s": rer,
             "cert_dns": cert_dns, "cert_ips": cert_ips, "not_after_offset": na, "present": present,
-            "shape": shape, "not_before_offset": nb, "nb_class": nb_class}
+            "shape": shape, "not_before_offset": nb, "nb_class": nb_class,
+            # what KIND of directory entry the two paths are (py/ext/c06link.py): links to the files, dangling links, …
+            "entry": c06link.pick(idx)}
 
 
 def prepare(helper, t):
@@ -151,6 +153,7 @@ def prepare(helper, t):
     if t["present"] in ("both", "no-cert", "corrupt-cert"):
         with open(base + ".pk.pem", "w") as f:
             f.write(r["key_pem"])
+    c06link.apply(t, base + ".crt.pem", base + ".pk.pem")
     t["made_at"] = r["now_unix"]
     return r
 
@@ -218,6 +221,7 @@ def check(ctx, triples, binary=None, tag=""):
             cert = {"sans": sans, "not_after_in": not_after_in}
         disk = {"key_file": t["present"] in ("both", "no-cert", "corrupt-cert"),
                 "cert_file": t["present"] in ("both", "no-key", "corrupt-cert"), "cert": cert}
+        disk["key_file"], disk["cert_file"], disk["cert"] = c06link.disk(t, disk["key_file"], disk["cert_file"], disk["cert"])
         obs = i.get("ok_ns") if ok and "ok_ns" in i else None
         # the configured identifiers in their canonical form as the GENERATOR knows it (lower-case A-labels,
         # RFC 5952 IP text) — not as the code under test normalised them: a certificate that covers them must
@@ -237,8 +241,11 @@ def check(ctx, triples, binary=None, tag=""):
             ctx.count(tag + "sans:case-differs:read-as-covered")
     for t, i, j, v in zip(triples, impl, jin, verdicts):
         canon = {k: t[k] for k in ("ids", "delay_s", "rer_s", "cert_dns", "cert_ips", "not_after_offset", "present")}
+        if t.get("entry"):
+            canon["entry"] = t["entry"]
         ctx.case(canon, nontrivial=t["present"] == "both")
         ctx.count(tag + "files:" + t["present"])
+        c06link.count(ctx, tag, t, j["disk"]["key_file"], j["disk"]["cert_file"])
         ctx.count(tag + "sans:" + t["shape"])
         c06nb.count(ctx, tag, t, ":files=%s:sans=%s" % (t["present"], t["shape"]))
         if any(x["type"] == "dns" and any(ord(c) > 127 for c in x["value"]) for x in t["ids"]):
@@ -266,7 +273,7 @@ def check(ctx, triples, binary=None, tag=""):
         if not v.get("holds"):
             ctx.violation("schedule_renewal returned %s; the property allows [%s, %s] (files %s, sans %s, "
                           "notAfter in %d s, delay %d s, rer %d s, notBefore %s)" % (
-                              i.get("ok_ns", i.get("err")), v.get("model_lo"), v.get("model_hi"), t["present"],
+                              i.get("ok_ns", i.get("err")), v.get("model_lo"), v.get("model_hi"), t["present"] + c06link.describe(t),
                               t["shape"], t["not_after_offset"], t["delay_s"], t["rer_s"],
                               "%s (%+d s from now)" % (t.get("nb_class"), t["not_before_offset"])
                               if t.get("not_before_offset") is not None else "in the past"), replay_obj)
